@@ -31,6 +31,21 @@ def observe():
         except Exception as ex:        # any refusal
             n, exc = 0, type(ex).__name__
         ev.append({"ev": "CdbLen", "op": v, "len": n, "exc": exc})
+    # the same rule through the other public route, marshall_cdb of a dictionary, on ONE class for all 256
+    # codes in three orders: the length must not depend on which code that class encoded before
+    import random
+    from ..core import cmds
+    orders = {"Inquiry": list(range(256)), "Read16": list(range(255, -1, -1)), "TestUnitReady": list(range(256))}
+    random.Random(14).shuffle(orders["TestUnitReady"])
+    for cls, order in sorted(orders.items()):
+        K = cmds.klass(cls)
+        for v in order:
+            try:
+                n = len(K.marshall_cdb({"opcode": v}))
+                exc = ""
+            except Exception as ex:
+                n, exc = 0, type(ex).__name__
+            ev.append({"ev": "CdbLen", "op": v, "len": n, "exc": exc, "via": "marshall_cdb", "cls": cls})
     return ev
 
 
@@ -119,14 +134,14 @@ def run(chk, replay=None):
                        "what": e["ev"], "events": [x for x in events[:i + 1] if x.get("name") == e.get("name") and x["ev"] == e["ev"]] or [e]},
                       dedup=(clause, e.get("set", ""), e.get("name", e.get("op"))))
     for e in events:
-        ev.case((e["ev"], e.get("set", ""), e.get("name", e.get("op")), e.get("opvalue", "")))
+        ev.case((e["ev"], e.get("set", e.get("cls", "")), e.get("name", e.get("op")), e.get("opvalue", "")))
     ev.sample({"event": events[0]})
     ev.sample({"event": [e for e in events if e["ev"] == "SA"][0]})
     ev.sample({"event": events[-1]})
     ev.cov["exhaustive"] = True
     ev.cov["unjudged_names"] = sorted(set(unjudged))
     ev.cov["rule"] = ("every entry of the five opcode tables, every service-action entry of every OpCode, every status "
-                      "name, and init_cdb for all 256 operation code values, judged by Trace_Opcodes; every entry of "
+                      "name, and init_cdb plus marshall_cdb (one class, three orders) for all 256 operation code values, judged by Trace_Opcodes; every entry of "
                       "T10Opcodes.tla that the library lists compared in the other direction. Distinct by (kind, set, "
                       "name); all non-trivial. Names without a T10 value in the spec are listed under unjudged_names.")
 
